@@ -15,7 +15,6 @@ from __future__ import annotations
 
 import json
 import os
-import random
 import subprocess
 import time
 from concurrent.futures import ThreadPoolExecutor
@@ -256,24 +255,28 @@ def replay_file(run: Run, path: str):
 def main(tier: str, replay: str | None = None):
     ensure_repo()
     run = Run("C04", tier)
-    run.rule = ("Scope.tla: every package configuration (site module in {pkg/__init__, pkg.a, pkg.sub/__init__, pkg.sub.b}; focus name in {x, A, B, q, pkg, a, sub}; "
+    run.rule = ("Scope.tla: every package configuration (site module in {pkg/__init__, pkg.sub/__init__, pkg.sub.b} (quick: first and last); focus name in {x, A, B, q, pkg, a, sub}; "
                 "binding kind of the name at module / class A / nested class B / __init__ level and in the ancestor packages) x every site scope "
-                "(module, A, B, A.__init__, A.m, B.__init__, B.m), plus every `from` statement (level 0..3 x module part x imported name x as) in 5 modules at module/class/function level. "
+                "(module, A, B, A.__init__, A.m, B.__init__, B.m), plus every `from` statement (level 0..3 x module part x imported name x as) in 6 (quick: 5) modules at module/class/function level. "
                 "Non-trivial = Python binds the name or some Griffe scope level declares it; distinct by (configuration, site scope).")
     if replay:
         replay_file(run, replay)
     cfg = f"Scope_{tier}.cfg"
     consts = {"FAMS": tla_set(["scope", "rel"])}
     jobs = {}
-    pool = ThreadPoolExecutor(max_workers=8)       # the defect-domain runs overlap with the replay of the full run
-    jobs["full"] = pool.submit(tlc.run, "Scope", cfg, workers=4 if tier == "quick" else 8, deadlock=True, timeout=3000, heap="6g",
-                               constants=dict(consts, RELAX=tla_set(ALL_RELAX), GUARD="{}", EMIT="TRUE"))
+    # two TLC JVMs at a time (tlc.run holds a machine-wide slot per JVM): the main run, and the seven small defect-domain
+    # runs one after the other; the latter overlap with the replay of the main run
+    pool = ThreadPoolExecutor(max_workers=1)
+    main_pool = ThreadPoolExecutor(max_workers=1)
+    jobs["full"] = main_pool.submit(tlc.run, "Scope", cfg, workers=4 if tier == "quick" else 8, deadlock=True, timeout=3000, heap="6g",
+                                    constants=dict(consts, RELAX=tla_set(ALL_RELAX), GUARD="{}", EMIT="TRUE"))
     for d in ALL_RELAX:
         jobs[d] = pool.submit(tlc.run, "Scope", "Scope_defect.cfg", workers=1, deadlock=True, timeout=3000, dump_trace=True,
                               constants=dict(FAMS=tla_set(["scope"]), RELAX=tla_set([d]), GUARD=tla_set([d]), EMIT="FALSE"))
     pool.shutdown(wait=False)
+    main_pool.shutdown(wait=False)
     full = jobs["full"].result()
-    print(f"TLC: {full.summary()}", flush=True)
+    print(f"TLC: {full.summary()} (t+{time.time() - run.t0:.1f}s)", flush=True)
     tlc.must(full, allow_violations=True)
     run.add_tlc(full)
     if full.violated:
@@ -289,6 +292,7 @@ def main(tier: str, replay: str | None = None):
     chk = Checker(run)
     for e in envs:
         chk.check_env(e, results[e["id"]])
+    print(f"compared {len(cases)} cases (t+{time.time() - run.t0:.1f}s)", flush=True)
     run.exhaustive = True
     # vacuity: every action of the walk fired, every clause had instances
     missing = EXPECTED_BINDERS - chk.binders
@@ -306,6 +310,7 @@ def main(tier: str, replay: str | None = None):
         tlc.must(res, allow_violations=True)
         run.add_tlc(res)
         verdicts[d] = res.violated
+        print(f"TLC defect domain {d}: violated={res.violated} distinct={res.distinct} wall={res.wall_s:.1f}s", flush=True)
         if not res.violated or not res.trace:
             run.note(f"domain {d}: Scope.tla no longer exhibits a defect there (model changed?)")
             continue
@@ -322,5 +327,5 @@ def main(tier: str, replay: str | None = None):
         run.note(f"{chk.drift} site(s) where the real code differs from the model's Impl although it satisfies the reference (model drift)")
     if chk.overapprox:
         run.note(f"{chk.overapprox} case(s) where the model predicts a violation and the real code shows none (model drift)")
-    _ = random.Random(SEED)  # no random choice is made: the enumeration is exhaustive in both tiers
+    run.extra["seed_use"] = f"VERIF_SEED={SEED} unused: the enumeration is exhaustive in both tiers, no random choice is made"
     run.finish()
